@@ -40,6 +40,7 @@ def c15(ctx):
         ctx.add(out, lab, G.rule_G1, ctx, prog, lab)
         ctx.add(out, lab, G.rule_G2, ctx, prog, lab)
         ctx.add(out, lab, G.rule_G1nm, ctx, prog, lab)
+    _selftest(ctx, out, ['G1'])
     ctx.add(out, 'configure.ac', G.rule_G4, ctx)
     return out
 
@@ -72,7 +73,15 @@ def c20(ctx):
         ctx.add(out, lab, NC.rule_E3_census, ctx, prog, lab)
         ctx.add(out, lab, NC.rule_E3_third_party, ctx, prog, lab)
         ctx.add(out, lab, NC.rule_E4, ctx, prog, lab)
+    _selftest(ctx, out, ['E3'])
     return out
+
+
+def _selftest(ctx, out, which, cfg=None):
+    """positive controls for zero-expected-count rules (selftest/controls.c), on the host configuration"""
+    from . import selftest as ST
+    cfg = cfg or frontend.host_config()
+    ctx.add(out, 'selftest', ST.rule_selftest, ctx, cfg, 'selftest', which=which)
 
 
 def _configs(ctx, extra=()):
@@ -113,6 +122,7 @@ def c11(ctx):
         ctx.add(out, lab, AL.rule_D0, ctx, prog, lab)
         ctx.add(out, lab, AL.rule_D1, ctx, prog, lab)
         ctx.add(out, lab, AL.rule_D2, ctx, prog, lab)
+    _selftest(ctx, out, ['E1', 'D0'])
     return out
 
 
@@ -153,6 +163,7 @@ def c09(ctx):
         ctx.add(out, lab, AL.rule_D0, ctx, prog, lab)
         ctx.add(out, lab, AL.rule_D1, ctx, prog, lab)
         ctx.add(out, lab, AL.rule_D2, ctx, prog, lab)
+    _selftest(ctx, out, ['C1', 'S1', 'A1'])
     return out
 
 
@@ -170,6 +181,7 @@ def c17(ctx):
         ctx.add(out, lab, M.rule_C3, ctx, prog, lab)
         ctx.add(out, lab, M.rule_C3b, ctx, prog, lab)
         ctx.add(out, lab, M.rule_S1, ctx, prog, lab)
+    _selftest(ctx, out, ['S1'])
     return out
 
 
@@ -187,6 +199,7 @@ def c13(ctx):
         ctx.add(out, lab, M.rule_C1, ctx, prog, lab, only=ROWOPS, rule='C1-rowops')
         ctx.add(out, lab, B.rule_B1, ctx, prog, lab, only_funcs={'mzd_write_col_to_rows_blockd', 'mzd_col_swap_in_rows'})
         ctx.add(out, lab, CT.rule_F4, ctx, prog, lab)
+        ctx.add(out, lab, M.rule_W1, ctx, prog, lab)
     return out
 
 
@@ -322,10 +335,12 @@ def c03(ctx):
 @prop('C04', level='other',
       explanation=('Structural clauses of TRSM: F1 on the four wrappers (T square, T vs B dimension, before any work); A1 (T unchanged); '
                    'B1 on the 2x64-statement pack/unpack runs and the NTABLES switches of both Four-Russians routines; D1 (their tables are '
-                   'phase-matched to B); C1 on the word base cases.'),
-      not_decided='T*X = B; that only the named triangle is read (index inequalities)')
+                   'phase-matched to B); C1 on the word base cases. T1: the triangular operand is read only inside its named triangle '
+                   '(diagonal windows stay triangular, in-triangle blocks are free, every bit read has its coordinate inequality proved '
+                   'from the enclosing loops, any other consumer - a copy, a product, a word read - is a finding).'),
+      not_decided='T*X = B (value level)')
 def c04(ctx):
-    from . import families as B, contracts as CT, const_rules as CR, align as AL, masks as M
+    from . import families as B, contracts as CT, const_rules as CR, align as AL, masks as M, triangle as TR
     out = []
     for cfg in _configs(ctx, extra=[dict(frontend.host_config(), sse2=0)]):
         prog = _prog(ctx, cfg)
@@ -337,6 +352,7 @@ def c04(ctx):
         ctx.add(out, lab, B.rule_B1, ctx, prog, lab, only_funcs=TRSM_FUNCS)
         ctx.add(out, lab, AL.rule_D1, ctx, prog, lab, only_funcs={'_mzd_trsm_upper_left_russian', '_mzd_trsm_lower_left_russian'})
         ctx.add(out, lab, M.rule_C1, ctx, prog, lab, only=TRSM_FUNCS | {'_mzd_trsm_lower_left', '_mzd_trsm_upper_left', '_mzd_trsm_upper_right_base', '_mzd_trsm_lower_right_base'}, rule='C1-trsm')
+        ctx.add(out, lab, TR.rule_T1, ctx, prog, lab)
     return out
 
 
@@ -368,12 +384,13 @@ def c18(ctx):
                    '16-member spread/shrink families are affine in their index.'),
       not_decided='m4ri_gray_code, m4ri_build_code, m4ri_parity64, m4ri_lesser_LSB: data-dependent code whose correctness is a statement about evaluated values')
 def c19(ctx):
-    from . import witness as W, families as B
+    from . import witness as W, families as B, masks as M
     out = []
     for cfg in _configs(ctx):
         prog = _prog(ctx, cfg)
         lab = _label(cfg)
         ctx.add(out, lab, W.rule_C8, ctx, prog, lab)
+        ctx.add(out, lab, M.rule_W1, ctx, prog, lab)
         ctx.add(out, lab, B.rule_B7, ctx, prog, lab)
         ctx.add(out, lab, B.rule_B1, ctx, prog, lab, only_funcs=BIT_FUNCS)
     return out
@@ -460,11 +477,14 @@ def c16(ctx):
         prog = _prog(ctx, cfg)
         lab = _label(cfg)
         ctx.add(out, lab, H.rule_H1, ctx, prog, lab)
+        ctx.add(out, lab, H.rule_H3, ctx, prog, lab)
         ctx.add(out, lab, H.rule_H2, ctx, prog, lab)
+        ctx.add(out, lab, H.rule_H4, ctx, prog, lab)
         ctx.add(out, lab, CT.rule_F6, ctx, prog, lab, only_funcs={'_mzd_mul_mp4', '_mzd_addmul_mp4', 'mzd_mul_mp', 'mzd_addmul_mp'})
         ctx.add(out, lab, CT.rule_F7, ctx, prog, lab, only_funcs={'_mzd_mul_mp4', '_mzd_addmul_mp4', 'mzd_mul_mp', 'mzd_addmul_mp'})
         ctx.add(out, lab, H.rule_G3, ctx, prog, lab)
         ctx.add(out, lab, CR.rule_A1, ctx, prog, lab)
+    _selftest(ctx, out, ['H3', 'H4'], cfg=frontend.openmp_configs()[0])
     ctx.add(out, 'configure.ac', G.rule_G4, ctx)
     return out
 
